@@ -154,6 +154,8 @@ pub fn check06(s: &Scenario) -> CheckResult {
         ensure!(mode == Some(want_mode), "C06/mode", "t={} piece {:?}: mode {:?}, expected {:?}", t, piece, mode, want_mode);
         // piece <-> PositionDerivative conversion agrees
         ensure!(PositionDerivative::try_from(piece).ok() == if r == 4 { None } else { Some(want_mode) }, "C06/piece-to-mode", "PositionDerivative::try_from({:?}) disagrees with the mode table", piece);
+        let unit_of_piece = Unit::try_from(piece).ok();
+        ensure!(unit_of_piece == if r == 4 { None } else { Some(Unit::from(want_mode)) }, "C06/piece-to-unit", "Unit::try_from({:?}) = {:?}, the piece's mode is {:?}", piece, unit_of_piece, if r == 4 { None } else { Some(want_mode) });
         if r < 4 {
             ensure!(vel.is_some() && pos.is_some(), "C06/absent-during-move", "t={} during the move: vel {:?} pos {:?}", t, vel, pos);
         } else {
